@@ -143,6 +143,11 @@ func solveFunc(fr *FuncResult, opts SolveOpts) []*OblResult {
 	var wg sync.WaitGroup
 	sem := make(chan struct{}, opts.Workers)
 	fkey := sanitize(fr.Key)
+	retries := map[string]int{}
+	var retryMu sync.Mutex
+	if fr.DeclsQF == "" {
+		fr.DeclsQF = fr.Decls.TextQF()
+	}
 	for _, j := range jobs {
 		j := j
 		wg.Add(1)
@@ -150,36 +155,80 @@ func solveFunc(fr *FuncResult, opts SolveOpts) []*OblResult {
 		go func() {
 			defer wg.Done()
 			defer func() { <-sem }()
-			// incremental script for the path
-			var b strings.Builder
-			b.WriteString(decls)
-			pcDone := 0
 			sort.SliceStable(j.insts, func(a, c int) bool { return j.insts[a].obl.PCLen < j.insts[c].obl.PCLen })
-			for _, in := range j.insts {
-				for ; pcDone < in.obl.PCLen; pcDone++ {
-					fmt.Fprintf(&b, "(assert %s)\n", in.path.PC[pcDone].S)
-				}
-				fmt.Fprintf(&b, "(push 1)\n(assert (not %s))\n(check-sat)\n(pop 1)\n", in.obl.Goal.S)
-			}
 			tag := fmt.Sprintf("%s.p%d", fkey, j.pi)
-			lines, raw, el := runSolver("z3-new", b.String(), opts.TimeoutMS, len(j.insts), opts.WorkDir, tag)
-			for k, in := range j.insts {
-				in.by = "z3-new"
-				in.ms = el.Milliseconds() / int64(len(j.insts))
-				if k < len(lines) {
-					in.res = lines[k]
-				} else {
-					in.res = "unknown"
-					in.out = trunc(raw, 400)
+			isQF := func(t string) bool { return !strings.Contains(t, "(forall ") && !strings.Contains(t, "(exists ") }
+			// phase A: quantifier-free relaxation (fewer hypotheses; unsat here is a valid proof)
+			{
+				var b strings.Builder
+				b.WriteString(fr.DeclsQF)
+				pcDone := 0
+				var asked []*instance
+				for _, in := range j.insts {
+					for ; pcDone < in.obl.PCLen; pcDone++ {
+						if t := in.path.PC[pcDone].S; isQF(t) {
+							fmt.Fprintf(&b, "(assert %s)\n", t)
+						}
+					}
+					if !isQF(in.obl.Goal.S) {
+						continue
+					}
+					fmt.Fprintf(&b, "(push 1)\n(assert (not %s))\n(check-sat)\n(pop 1)\n", in.obl.Goal.S)
+					asked = append(asked, in)
 				}
-				if strings.HasPrefix(in.res, "error") {
-					in.out = in.res
-					in.res = "error"
+				if len(asked) > 0 {
+					lines, _, el := runSolver("z3-new", b.String(), 2000, len(asked), opts.WorkDir, tag+".qf")
+					for k, in := range asked {
+						if k < len(lines) && lines[k] == "unsat" {
+							in.res, in.by = "unsat", "z3-new(qf)"
+							in.ms = el.Milliseconds() / int64(len(asked))
+						}
+					}
 				}
 			}
-			// retry undecided ones individually on the other solvers
-			for k, in := range j.insts {
+			// phase B: full incremental script for what is left
+			var rest []*instance
+			for _, in := range j.insts {
+				if in.res != "unsat" {
+					rest = append(rest, in)
+				}
+			}
+			if len(rest) > 0 {
+				var b strings.Builder
+				b.WriteString(decls)
+				pcDone := 0
+				for _, in := range rest {
+					for ; pcDone < in.obl.PCLen; pcDone++ {
+						fmt.Fprintf(&b, "(assert %s)\n", in.path.PC[pcDone].S)
+					}
+					fmt.Fprintf(&b, "(push 1)\n(assert (not %s))\n(check-sat)\n(pop 1)\n", in.obl.Goal.S)
+				}
+				lines, raw, el := runSolver("z3-new", b.String(), opts.TimeoutMS, len(rest), opts.WorkDir, tag)
+				for k, in := range rest {
+					in.by = "z3-new"
+					in.ms += el.Milliseconds() / int64(len(rest))
+					if k < len(lines) {
+						in.res = lines[k]
+					} else {
+						in.res = "unknown"
+						in.out = trunc(raw, 400)
+					}
+					if strings.HasPrefix(in.res, "error") {
+						in.out = in.res
+						in.res = "error"
+					}
+				}
+			}
+			// phase C: retry undecided ones individually on the other solvers (bounded per obligation name)
+			for k, in := range rest {
 				if in.res == "unsat" || in.res == "sat" {
+					continue
+				}
+				retryMu.Lock()
+				n := retries[in.obl.Name]
+				retries[in.obl.Name] = n + 1
+				retryMu.Unlock()
+				if n >= 2 {
 					continue
 				}
 				script := singleQuery(decls, in)
@@ -227,7 +276,7 @@ func solveFunc(fr *FuncResult, opts SolveOpts) []*OblResult {
 			if r.Status != "failed" {
 				r.Status = "failed"
 				r.Solver = in.by
-				r.Detail = in.out
+				r.Detail = in.out + " | path: " + in.path.Trace
 				if in.by == "static" {
 					r.Status = "static-fail"
 				} else {
@@ -238,7 +287,7 @@ func solveFunc(fr *FuncResult, opts SolveOpts) []*OblResult {
 		default:
 			if r.Status == "discharged" {
 				r.Status = "unknown"
-				r.Detail = "solver answer: " + in.res + " " + in.out
+				r.Detail = "solver answer: " + in.res + " " + in.out + " | path: " + in.path.Trace
 				r.Query, _ = saveQuery(decls, in, opts.WorkDir, fkey, in.obl.Name)
 			}
 		}
